@@ -1,0 +1,201 @@
+//go:build verif
+
+/*
+ Licensed to the Apache Software Foundation (ASF) under one
+ or more contributor license agreements.  See the NOTICE file
+ distributed with this work for additional information
+ regarding copyright ownership.  The ASF licenses this file
+ to you under the Apache License, Version 2.0 (the
+ "License"); you may not use this file except in compliance
+ with the License.  You may obtain a copy of the License at
+
+     http://www.apache.org/licenses/LICENSE-2.0
+
+ Unless required by applicable law or agreed to in writing, software
+ distributed under the License is distributed on an "AS IS" BASIS,
+ WITHOUT WARRANTIES OR CONDITIONS OF ANY KIND, either express or implied.
+ See the License for the specific language governing permissions and
+ limitations under the License.
+*/
+
+package ugm
+
+import (
+	"sort"
+
+	"github.com/apache/yunikorn-core/pkg/common/resources"
+)
+
+// Verification hooks (build tag "verif" only): a fresh Manager per history and read access to
+// the complete tracker state and the limit configuration maps. Nothing here changes behaviour.
+
+// VerifNewManager replaces the package singleton by a fresh Manager and returns it.
+// Later calls of GetUserManager() return this instance (newQueueTracker reads the wild card
+// configuration through the package variable, so the singleton itself has to be replaced).
+func VerifNewManager() *Manager {
+	once.Do(func() {})
+	m = newManager()
+	return m
+}
+
+// VerifRes is a copy of a *resources.Resource: Nil distinguishes nil from an empty resource.
+type VerifRes struct {
+	Nil bool
+	Res map[string]int64
+}
+
+// VerifQT is a copy of one QueueTracker with its children (sorted by name).
+type VerifQT struct {
+	Name        string
+	Path        string
+	Usage       VerifRes
+	Max         VerifRes
+	MaxApps     uint64
+	Apps        []string
+	UseWildCard bool
+	Children    []*VerifQT
+}
+
+// VerifUser is a copy of a UserTracker. AppGroups holds every key of appGroupTrackers; the value
+// is the group name, HasGroup[app] is false when the stored tracker pointer is nil.
+type VerifUser struct {
+	Name      string
+	AppGroups map[string]string
+	HasGroup  map[string]bool
+	Root      *VerifQT
+}
+
+// VerifGroup is a copy of a GroupTracker (Apps: application -> user).
+type VerifGroup struct {
+	Name string
+	Apps map[string]string
+	Root *VerifQT
+}
+
+type VerifLimit struct {
+	Max     VerifRes
+	MaxApps uint64
+}
+
+// VerifState is a deep copy of everything the Manager holds.
+type VerifState struct {
+	Users            []*VerifUser
+	Groups           []*VerifGroup
+	UserWild         map[string]VerifLimit
+	GroupWild        map[string]VerifLimit
+	ConfiguredGroups map[string][]string
+	UserLimits       map[string]map[string]VerifLimit
+	GroupLimits      map[string]map[string]VerifLimit
+}
+
+func verifRes(r *resources.Resource) VerifRes {
+	if r == nil {
+		return VerifRes{Nil: true}
+	}
+	out := VerifRes{Res: make(map[string]int64, len(r.Resources))}
+	for k, v := range r.Resources {
+		out.Res[k] = int64(v)
+	}
+	return out
+}
+
+func verifQT(qt *QueueTracker) *VerifQT {
+	if qt == nil {
+		return nil
+	}
+	out := &VerifQT{
+		Name:        qt.queueName,
+		Path:        qt.queuePath,
+		Usage:       verifRes(qt.resourceUsage),
+		Max:         verifRes(qt.maxResources),
+		MaxApps:     qt.maxRunningApps,
+		UseWildCard: qt.useWildCard,
+	}
+	for app := range qt.runningApplications {
+		out.Apps = append(out.Apps, app)
+	}
+	sort.Strings(out.Apps)
+	names := make([]string, 0, len(qt.childQueueTrackers))
+	for name := range qt.childQueueTrackers {
+		names = append(names, name)
+	}
+	sort.Strings(names)
+	for _, name := range names {
+		out.Children = append(out.Children, verifQT(qt.childQueueTrackers[name]))
+	}
+	return out
+}
+
+func verifLimit(lc *LimitConfig) VerifLimit {
+	if lc == nil {
+		return VerifLimit{Max: VerifRes{Nil: true}}
+	}
+	return VerifLimit{Max: verifRes(lc.maxResources), MaxApps: lc.maxApplications}
+}
+
+func verifLimitMap(in map[string]*LimitConfig) map[string]VerifLimit {
+	out := make(map[string]VerifLimit, len(in))
+	for k, v := range in {
+		out[k] = verifLimit(v)
+	}
+	return out
+}
+
+// VerifState returns a deep copy of the trackers and of the five configuration maps.
+func (m *Manager) VerifState() *VerifState {
+	m.RLock()
+	defer m.RUnlock()
+	st := &VerifState{
+		UserWild:         verifLimitMap(m.userWildCardLimitsConfig),
+		GroupWild:        verifLimitMap(m.groupWildCardLimitsConfig),
+		ConfiguredGroups: make(map[string][]string, len(m.configuredGroups)),
+		UserLimits:       make(map[string]map[string]VerifLimit, len(m.userLimits)),
+		GroupLimits:      make(map[string]map[string]VerifLimit, len(m.groupLimits)),
+	}
+	for k, v := range m.configuredGroups {
+		st.ConfiguredGroups[k] = append([]string{}, v...)
+	}
+	for k, v := range m.userLimits {
+		st.UserLimits[k] = verifLimitMap(v)
+	}
+	for k, v := range m.groupLimits {
+		st.GroupLimits[k] = verifLimitMap(v)
+	}
+	users := make([]string, 0, len(m.userTrackers))
+	for name := range m.userTrackers {
+		users = append(users, name)
+	}
+	sort.Strings(users)
+	for _, name := range users {
+		ut := m.userTrackers[name]
+		ut.RLock()
+		vu := &VerifUser{Name: ut.userName, AppGroups: map[string]string{}, HasGroup: map[string]bool{}, Root: verifQT(ut.queueTracker)}
+		for app, gt := range ut.appGroupTrackers {
+			if gt != nil {
+				vu.AppGroups[app] = gt.groupName
+				vu.HasGroup[app] = true
+			} else {
+				vu.AppGroups[app] = ""
+				vu.HasGroup[app] = false
+			}
+		}
+		ut.RUnlock()
+		st.Users = append(st.Users, vu)
+	}
+	groups := make([]string, 0, len(m.groupTrackers))
+	for name := range m.groupTrackers {
+		groups = append(groups, name)
+	}
+	sort.Strings(groups)
+	for _, name := range groups {
+		gt := m.groupTrackers[name]
+		gt.RLock()
+		vg := &VerifGroup{Name: gt.groupName, Apps: map[string]string{}, Root: verifQT(gt.queueTracker)}
+		for app, u := range gt.applications {
+			vg.Apps[app] = u
+		}
+		gt.RUnlock()
+		st.Groups = append(st.Groups, vg)
+	}
+	return st
+}
